@@ -6,6 +6,7 @@ mod proto;
 mod q;
 mod run;
 mod z;
+mod z32;
 
 use std::io::{BufRead, Write};
 
